@@ -531,7 +531,9 @@ fn do_to_dot<W: Write>(
             else {
                 unreachable!();
             };
+            let literal = literal.replace('\\', "\\\\").replace('"', "\\\"");
             if let Some(description) = description {
+                let description = description.replace('\\', "\\\\").replace('"', "\\\"");
                 writeln!(
                     output,
                     r#"{indentation}{node_dot_id}[label="{pos}: \"{literal}\"\n\"{description}\""];"#
@@ -551,6 +553,7 @@ fn do_to_dot<W: Write>(
             let RegexInput::Nonterminal { nonterm, .. } = input else {
                 unreachable!()
             };
+            let nonterm = nonterm.replace('\\', "\\\\").replace('"', "\\\"");
             writeln!(
                 output,
                 r#"{indentation}{node_dot_id}[label="{pos}: <{nonterm}>"];"#
